@@ -812,6 +812,17 @@ def _inline_local_predicates(tree: ast.Module, ref_locals: Optional[Dict[str, Se
                 body = _body_without_doc(st)
                 if len(body) == 1 and isinstance(body[0], ast.Return) and body[0].value is not None:
                     cands[st.name] = ([a.arg for a in st.args.args], body[0].value, st)
+                elif len(body) == 2 and isinstance(body[0], ast.Assign) and len(body[0].targets) == 1 and isinstance(body[0].targets[0], ast.Name) \
+                        and isinstance(body[1], ast.Return) and body[1].value is not None:
+                    # `tmp = E; return g(tmp)` with tmp read once, as the first thing the return evaluates: the value is g(E)
+                    tmp = body[0].targets[0].id
+                    reads = [n_ for n_ in ast.walk(body[1].value) if isinstance(n_, ast.Name) and n_.id == tmp]
+                    first = body[1].value
+                    while isinstance(first, (ast.Call, ast.Attribute, ast.Subscript)):
+                        first = first.func if isinstance(first, ast.Call) else first.value
+                    if len(reads) == 1 and first is reads[0] and tmp not in [a.arg for a in st.args.args]:
+                        merged = _Subst({tmp: body[0].value}, {}).visit(copy.deepcopy(body[1].value))
+                        cands[st.name] = ([a.arg for a in st.args.args], ast.fix_missing_locations(ast.copy_location(merged, body[1].value)), st)
             elif isinstance(st, ast.Assign) and len(st.targets) == 1 and isinstance(st.targets[0], ast.Name) and isinstance(st.value, ast.Lambda) \
                     and not st.value.args.vararg and not st.value.args.kwarg and not st.value.args.kwonlyargs and not st.value.args.defaults:
                 cands[st.targets[0].id] = ([a.arg for a in st.value.args.args], st.value.body, st)
